@@ -97,6 +97,18 @@ Example C19_save_moves_restore_somewhere :
   (cur_r s, cur_c s) = (2, 3).
 Proof. vm_compute. reflexivity. Qed.
 
+(** the reference leaves no freedom: every well-shaped screen has a reference reading, and two well-shaped screens with
+    the same reading are the same screen - so two histories the reference cannot tell apart end in the very same screen *)
+Theorem C19_reference_determines_screen : forall s1 s2 a, wf s1 -> wf s2 -> rep s1 a -> rep s2 a -> s1 = s2.
+Proof. exact rep_injective. Qed.
+Print Assumptions C19_reference_determines_screen.
+
+Theorem C19_same_reference_same_screen : forall ops1 ops2 s, wf s ->
+  aeq (fold_left astep ops1 (abs_of s)) (fold_left astep ops2 (abs_of s)) ->
+  fold_left sstep ops1 s = fold_left sstep ops2 s.
+Proof. exact same_reference_same_screen. Qed.
+Print Assumptions C19_same_reference_same_screen.
+
 (** non-vacuity: erase_down on the last row of a 2x3 screen keeps the cells left of the cursor *)
 Example C19_erase_down_last_row :
   w (fold_left sstep [OFill 120%N; OHome 2 2; OEraseDown] (init 2 3)) = [[120; 120; 120]; [120; 32; 32]]%N.
